@@ -5,24 +5,31 @@ prop("C10",
                 "logOK). Inductive invariant Inv10 = C04 invariant + coherent tables + pointwise relation RecOK between the "
                 "stored record and the provider entry of every address (assigned only to the node the record names; records "
                 "without pod / without incarnation name no node) + well-ordered log + bound live pods' addresses on the pod's "
-                "node, preserved by every move of the move set (all 14 moves except reload / restart / pod-IP sync, any provider "
-                "fault index) and lifted over all histories: assign_only_when_unassigned_or_same_node_partial (+ request-by-"
+                "node, preserved by every move of the move set (all 22 moves of the plugin model except reload - restart, pod-IP "
+                "sync, preempt, administrator reservations included - with one failing apiserver call AND one failing provider "
+                "call per move, any index) and lifted over all histories: assign_only_when_unassigned_or_same_node_partial (+ request-by-"
                 "request form every_assign_request_admissible_partial), unassign_before_free_or_rekey_partial, "
                 "bound_pod_ip_assigned_to_its_node_partial, stored_node_is_provider_node_partial, reachable_invariant, fact_*. "
-                "Counter theorems: assign_only_when_unassigned_or_same_node_counter (DESIGN D14) and "
-                "unassign_before_free_or_rekey_counter (two-address keys).",
-     level_note="_partial: decidable side conditions assumedAll - (a) C04's (non-empty names, bind uid given); (b) no APISERVER "
-                "fault (the property quantifies over provider calls failing cleanly) and reload (excluded by the property's "
-                "quantifier) / restart / pod-IP sync outside the move set; (c) bindSameNode: at a bind no record of this "
-                "incarnation under the pod's key names another node ('no bind retry on a different node'); (d) singleKeys: no "
-                "pod key owns two addresses. (c) and (d) are NOT guaranteed by the code; both counter histories break the real "
-                "plugin (known findings rebind-other-node-without-unassign, freed-or-rekeyed-while-assigned:multi-ip-key; "
-                "replays corpus/C10/d14.ops, d14-partial-bind.ops, multi-ip-resync.ops, multi-ip-release.ops).",
+                "Counter theorems: assign_only_when_unassigned_or_same_node_counter (DESIGN D14), "
+                "unassign_before_free_or_rekey_counter (two-address keys), "
+                "assign_only_when_unassigned_or_same_node_fault_counter (AssignIP ok, then UpdateAttr fails).",
+     level_note="_partial: decidable side conditions assumedAll - (a) C04's (non-empty names, bind uid given); (b) reload outside the "
+                "move set (excluded by the property's quantifier); restart only without unprocessed orphan objects; (c) "
+                "bindSameNode: at a bind no record of this incarnation under the pod's key names another node ('no bind retry on a "
+                "different node'); (d) singleKeys at resync / API release: no pod key owns two addresses; (e) bind only: the failing "
+                "apiserver call is not the UpdateAttr after a successful AssignIP (fault index 0 or the bind re-uses no address). "
+                "(c), (d), (e) are NOT guaranteed by the code; all three counter histories break the real plugin (known findings "
+                "rebind-other-node-without-unassign, freed-or-rekeyed-while-assigned:multi-ip-key, "
+                "stored-node-lost:assign-ok-updateattr-failed; replays corpus/C10/d14.ops, d14-partial-bind.ops, "
+                "multi-ip-resync.ops, multi-ip-release.ops, updateattr-fault.ops). (e) cannot be traded for a weaker theorem about "
+                "call ORDER only: after AssignIP ok + UpdateAttr failed the record names no node, every side condition holds for "
+                "the scheduler's retry on another node, and that retry sends AssignIP(n2) while the provider still has n1.",
      technique="Lean 4 inductive invariant over an executable model parameterised by regenerated structural facts (factgen plugin) + "
                "differential correspondence of every step (result class, observed choices, provider log per address, provider "
                "state, full digest) of the REAL FloatingIPPlugin with a recording cloud provider that fails on demand (10-15 % "
                "clean failures) against gxdrv_plugin, on histories of pods moving between three nodes of one subnet, old-pod "
-               "events before / after the new pod's binding, retries; monitor = the real call log replayed through the per-IP "
+               "events before / after the new pod's binding, retries, a third profile with apiserver faults (8 %), restart and "
+               "pod-IP sync; monitor = the real call log replayed through the per-IP "
                "state machine + bound live pods' addresses on their node + every release / re-key preceded by an unassign + "
                "stored node = provider node; thorough: breadth-first enumeration of all states reachable within 8 moves over a "
                "14-move alphabet (1 pod identity, any incarnations, 2 nodes, provider failures)",
